@@ -76,6 +76,18 @@ def expected_of_reply(call):
     return ('ok', conv(vals))
 
 
+def error_body(c):
+    """Error replies come with a text, with text + values, with no body at all, or with a non-string first value."""
+    k = (c.idx + len(c.token) + len(c.body_kind)) % 4
+    if k == 0:
+        return '', []
+    if k == 1:
+        return 'is', [c.idx, 'not-the-message']
+    if k == 2:
+        return 's', ['msg-' + c.token]
+    return 'si', ['msg-' + c.token, c.idx]
+
+
 def execute(ctx, calls, order, case):
     """order: list of (call index | 'X' | 'U', event letter)."""
     peer = clientfix.Peer().ready()
@@ -116,9 +128,10 @@ def execute(ctx, calls, order, case):
             raw = RM.build(RM.METHOD_RETURN, rserial[0], {'reply_serial': c.serial, 'sender': ':1.7'}, sig,
                            build(c.token), c.little)
         else:
+            esig, ebody = error_body(c)
             raw = RM.build(RM.ERROR, rserial[0], {'reply_serial': c.serial, 'sender': ':1.7',
                                                   'error_name': 'org.verif.Err%d' % c.idx},
-                           'si', ['msg-' + c.token, c.idx], c.little)
+                           esig, ebody, c.little)
         peer.send(raw)
 
     now = [0.0]
@@ -230,10 +243,12 @@ def execute(ctx, calls, order, case):
             else:
                 ok = got_kind == 'err' and isinstance(val.value, E.RemoteError)
         elif kind == 'error':
+            esig, ebody = error_body(c)
+            want_msg = ebody[0] if ebody and isinstance(ebody[0], str) else ''
             ok = (got_kind == 'err' and isinstance(val.value, E.RemoteError)
                   and getattr(val.value, 'errName', None) == 'org.verif.Err%d' % c.idx
-                  and getattr(val.value, 'message', None) == 'msg-' + c.token
-                  and plain_eq(getattr(val.value, 'values', None), ['msg-' + c.token, c.idx]))
+                  and getattr(val.value, 'message', None) == want_msg
+                  and plain_eq(list(getattr(val.value, 'values', None) or []), ebody))
         elif kind == 'timeout':
             ok = got_kind == 'err' and isinstance(val.value, E.TimeOut)
         elif kind == 'loss':
